@@ -438,7 +438,7 @@ func (p *parseVisitor) VisitSaveFromAccount(c *parser2.SaveFromAccountContext) *
 		p.PushAddress(*addr)
 	} else if mon := c.GetMon(); mon != nil {
 		// push the value of the expression (not just its leftmost operand)
-		typ, _, compErr = p.VisitExpr(mon, true)
+		typ, addr, compErr = p.VisitExpr(mon, true)
 		if compErr != nil {
 			return compErr
 		}
@@ -447,6 +447,8 @@ func (p *parseVisitor) VisitSaveFromAccount(c *parser2.SaveFromAccountContext) *
 				"save monetary from account: the first expression should be of type 'monetary' instead of '%s'", typ))
 		}
 	}
+
+	monAddr := addr
 
 	typ, addr, compErr = p.VisitExpr(c.GetAcc(), false)
 	if compErr != nil {
@@ -457,6 +459,9 @@ func (p *parseVisitor) VisitSaveFromAccount(c *parser2.SaveFromAccountContext) *
 			"save monetary from account: the second expression should be of type 'account' instead of '%s'", typ))
 	}
 	p.PushAddress(*addr)
+
+	// the machine needs a balance entry for the account, even if it is the source of no send
+	p.setNeededBalances(map[machine.Address]struct{}{*addr: {}}, monAddr)
 
 	p.AppendInstruction(program2.OP_SAVE)
 
